@@ -1,2 +1,53 @@
-From AG Require Import Str.
-Example placeholder : 1 = 1. Proof. reflexivity. Qed.
+(** C02 — filters select exactly the matching lines. *)
+From Coq Require Import List NArith ZArith Bool Lia.
+From AG Require Import Str Ops Filter Pipeline Str_proofs Match_proofs Ops_proofs.
+Import ListNotations.
+Open Scope N_scope.
+
+(** a line reaches the operators iff it satisfies the filter; order kept, nothing else changes *)
+Theorem C02_pass_iff_match : forall f stages lines,
+  run_pipeline f stages lines = run_pipeline (fun _ => true) stages (List.filter f lines).
+Proof. exact run_pipeline_filter. Qed.
+Print Assumptions C02_pass_iff_match.
+
+(** AND / juxtaposition conjoin, OR disjoins, NOT negates, `*` alone selects every line *)
+Theorem C02_boolean : forall l f line,
+  fmatches (FAnd l) line = forallb (fun g => fmatches g line) l /\
+  fmatches (FOr l) line = existsb (fun g => fmatches g line) l /\
+  fmatches (FNot f) line = negb (fmatches f line) /\
+  fmatches (FAnd []) line = true.
+Proof.
+  intros. split; [apply fmatches_and|]. split; [apply fmatches_or|]. split; [apply fmatches_not | apply fmatches_star].
+Qed.
+Print Assumptions C02_boolean.
+
+(** a quoted keyword matches iff its text occurs somewhere in the line (a `*` inside quotes is literal),
+    character by character up to ASCII case, a space standing for any whitespace *)
+Theorem C02_quoted_keyword : forall pat t,
+  kw_is_match KExact pat t = true <->
+  exists pre m post, t = pre ++ m ++ post /\ seg_eq (unescape_quotes pat) m = true.
+Proof. exact exact_keyword_spec. Qed.
+Print Assumptions C02_quoted_keyword.
+
+(** a bare keyword s0*s1*...: the segments occur in order, the gaps between them free of newlines *)
+Theorem C02_wildcard_sound : forall s0 rest anch t caps,
+  find_match s0 rest anch t = Some caps ->
+  exists pre m t', t = pre ++ m ++ t' /\ seg_eq s0 m = true /\ segs_match rest anch t' caps.
+Proof. exact find_match_sound. Qed.
+Print Assumptions C02_wildcard_sound.
+
+Theorem C02_wildcard_complete : forall s0 rest anch t pre m t' caps,
+  t = pre ++ m ++ t' -> seg_eq s0 m = true -> segs_match rest anch t' caps ->
+  exists caps', find_match s0 rest anch t = Some caps'.
+Proof. exact find_match_complete. Qed.
+Print Assumptions C02_wildcard_complete.
+
+(** literal characters match only themselves (up to ASCII case) *)
+Theorem C02_literal_characters : forall p c, p <> 32 -> pchar_match p c = true -> ascii_lower p = ascii_lower c.
+Proof. exact pchar_match_literal. Qed.
+Print Assumptions C02_literal_characters.
+
+Example C02_example :
+  let f := FAnd [FKw KWild (lit "err*r"); FNot (FKw KExact (lit "a*b"))] in
+  map (fmatches f) [lit "an ERROR here"; lit "error a*b"; lit "err" ++ [10] ++ lit "or"; lit "fine"] = [true; false; false; false].
+Proof. vm_compute. reflexivity. Qed.
